@@ -176,6 +176,31 @@ Theorem C03_loop_success_commits : forall H fh,
 Proof. exact round_commits. Qed.
 Print Assumptions C03_loop_success_commits.
 
+(* Lists of different lengths.  The code caps every served list at the tip by
+   itself (a list capped to nothing is dropped), compares the lists entry by
+   entry as far as each of them goes, and takes ONE of the agreeing lists -
+   whichever the map iteration yields first ([d_hint]) - as it is: a correct
+   but shorter list ("lazy" peer: a prefix of the true list) can be the one
+   taken in a round, then that round commits only as far as it reaches.  The
+   hypothesis about the honest peer is that SOME connected peer - p - serves
+   the complete true list, not that all lists are equally long: whenever the
+   choice falls on p, a round that finds the filter tip a whole interval
+   behind commits (at least the first request's range, when p's answer to it
+   arrives and the fetch does not panic), whatever shorter or empty lists
+   the other peers served.  (That the choice falls on every agreeing list
+   now and then is the map's randomisation: sampled, the monitor rejects 24
+   fetch rounds in a row without progress.) *)
+Theorem C03_loop_complete_list_commits : forall H fh,
+  (forall a b a' b', H a b = H a' b' -> a = a' /\ b = b') -> (forall a b, H a b <> 0) ->
+  forall parent g p c tfilt s d s' asked bans,
+  linv H fh parent g p c s -> hon_round H fh p c tfilt s d -> eff_phase s <> PTip ->
+  round H c s d = (s', (3, asked, bans)) -> l_flag s' = 0 ->
+  flen2 (l_a s) + INTERVAL <= tipH s -> d_hint d = p ->
+  (exists ar, In ar (d_ars d) /\ a_peer ar = p /\ a_q ar = 0) ->
+  flen2 (l_a s) < flen2 (l_a s').
+Proof. exact round_commits_choice. Qed.
+Print Assumptions C03_loop_complete_list_commits.
+
 (* The flag hypothesis [l_flag s' = 0] of the three progress theorems holds
    in every run of the repaired code (C03_loop_lists_never_stale).
    F111, F112 (repaired; no theorem kept about the old code): the model has
